@@ -12,6 +12,7 @@ from checks import common  # noqa: E402
 def setup():
     ok = True
     ok &= common.regen()
+    common.sh([sys.executable, "/verif/tools/gen_root.py"])
     rc, out, err = common.sh(["lake", "build"], cwd=common.LEAN, timeout=7200)
     print(out[-2000:], err[-2000:])
     ok &= rc == 0
